@@ -19,7 +19,7 @@ THEOREMS = [_T + n for n in [
     "C17_crop_bounds", "C17_extend_plan", "C17_extend_exact", "C17_width_keeps", "C17_crop_window",
     "C17_step_options", "C17_extend_closed", "C17_crop_closed", "C17_width_closed", "C17_step_closed",
     "C17_history_on_lattice", "C17_extend_twice", "C17_positional_binding", "C17_crop_positional", "C17_extend_positional",
-    "C17_width_positional", "C17_step_positional", "C17_session_pointwise", "C17_session_replay"]]
+    "C17_width_positional", "C17_step_positional", "C17_session_pointwise", "C17_session_replay", "C17_truthful_attribute"]]
 LEVEL_TEXT = ("Lean theorems over the rational model of crop_dim (exactly the samples in the requested interval when no "
               "coordinate lies within eps of an open end), extend_dim (the whole result = filled samples on the lattice points "
               "below, the array itself, filled samples on the lattice points above; exactly the lattice points inside the "
@@ -39,7 +39,9 @@ LEVEL_TEXT = ("Lean theorems over the rational model of crop_dim (exactly the sa
               "the optional arguments - k leading ones positionally in the documented order, the rest by keyword - is proved to "
               "bind each parameter to the value meant for it, and every such call style is run against the real code. Sessions "
               "(consecutive independent calls in one process on fresh, reused-and-changed and caller-edited objects) are judged "
-              "call by call: the session model is proved pointwise and replay-stable.")
+              "call by call: the session model is proved pointwise and replay-stable. Library-produced inputs: an array on a "
+              "regular lattice whose step attribute is truthful is proved to be treated exactly like the array without the "
+              "attribute, so arrays produced by other library functions are judged by the lattice of their coordinates.")
 LEVEL_NOTE = ("Unmodelled: binary64 rounding of numpy arange with a fractional step and of `end + k * step` (probed on the "
               "real code by the free-mode monitors with steps 0.01, 1/3, 0.004, 1/44100: length, data on coordinates, "
               "coordinates within 2^-40 of the lattice); xarray sel / reindex are modelled as label slice / label lookup. "
@@ -50,7 +52,10 @@ LEVEL_NOTE = ("Unmodelled: binary64 rounding of numpy arange with a fractional s
               "of building the array, 3 dimension names, 4 layouts, float32 / int64 axes, numpy scalar arguments), option "
               "products, tolerance-sized offsets around every comparison and size thresholds (16 .. 1025 samples) are "
               "generator-bounded correspondence on dyadic axes; every lattice point of a few non-dyadic axes is swept by the "
-              "free-mode monitors.")
+              "free-mode monitors. Data types (int16 / int32 / int64 / bool / float32 / float64) x fill values (integral, "
+              "fractional, NaN, +-inf) and arrays produced by other library functions (create_*_range, *_dim_from_array, "
+              "set_dim_attrs, resize, C17's own functions; premise monitor: a step attribute agrees with the coordinates) are "
+              "generator-bounded correspondence as well: the theorems are generic in the cell type, the model has no data type.")
 TECHNIQUE = ("Lean 4 proof over model; symbolic-trace equality obligations for the crop_dim / extend_dim kernels; table "
              "obligations for the signature defaults and the positional order of the seven public signatures; exact "
              "differential correspondence on dyadic axes (single calls in every call style, chained histories, sessions of "
@@ -65,6 +70,9 @@ RULE = ("dyadic axes of 1-40 points x every width 1..2n+3 x three positions x st
         "of 3-5 independent calls (x, a neighbour of x, x again) with reused-and-changed arrays (in place, shallow / "
         "deep copy, assign_coords), poisoned results, arguments snapshotted (values, coordinates, attributes) and "
         "earlier results read again; every coordinate / lattice point of non-dyadic axes (steps 0.01, 0.1, 1/3, 0.29); "
+        "data types int16 / int32 / int64 / bool / float32 / float64 x fill values 0, -9, 77, 1/2, -9/4, 1e-3, NaN, +-inf x every "
+        "filling and non-filling function; 13 first producers (library constructors) x resize to 6 sizes / C17's own functions "
+        "as producers x the function under test, on dyadic (exact) and decimal (free-mode) axes; "
         "non-trivial = the implementation returned an array; distinct = distinct (operation, input)")
 TRUSTED = ["the documented parameter order written down in harness/c17_calls.py DOCUMENTED (it must agree with the model's "
            "tables: any disagreement shows as a mismatch on the unchanged tree)",
@@ -76,7 +84,13 @@ ASSUMPTIONS = ["binary64 arithmetic is exact on the dyadic axes used for the exa
                "free-mode monitors: requested ends are nominal lattice points or half-way between two; the expected "
                "number of samples is the nominal count"]
 NOT_COMPARED = ["error messages (only the error class)", "`start` / `stop` attributes written by extend_dim",
-                "dtype of the data (an integer array may come back as float; cell values are compared)",
+                "dtype of the data (an integer array may come back as float; cell values are compared numerically: a new "
+                "sample must hold the fill value, an original sample its value)",
+                "float32 data with a fill value float32 cannot hold (1e-3): the new samples hold the fill value rounded to "
+                "single precision, a representation effect the property does not speak about - not generated",
+                "what ops.resize and the create_* / *_dim_from_array / set_dim_attrs constructors return (not C17's functions): "
+                "their output is read back and taken as the input; an untruthful step attribute they leave is tallied and noted, "
+                "and the C17 call on it is judged against the lattice of the coordinates",
                 "extension of a one-point axis that has no step attribute (the estimated step is NaN)",
                 "adjust_dim_range (not part of the property; its signature is not in the table obligation either)",
                 "whether a result is a view or a copy of its argument (crop_dim returns xarray views, adjust_dim_width with "
@@ -101,8 +115,8 @@ _norm_data = calls.norm_data
 # Arrays are built by harness/c17_calls.py (several construction paths, verified content); the functions under test
 # are called by `calls.invoke` the way the request says (keywords, or the first k optional arguments positionally
 # in the documented order).
-def _mk(coords, data, step_attr, layout="1d", int_axis=False, int_data=False, dim="time", build="time_dim"):
-    return calls.make_array(coords, data, step_attr, layout, int_axis, int_data, dim, build)
+def _mk(coords, data, step_attr, layout="1d", int_axis=False, int_data=False, dim="time", build="time_dim", data_dtype=None):
+    return calls.make_array(coords, data, step_attr, layout, int_axis, int_data, dim, build, data_dtype=data_dtype)
 
 
 def _out(arr, layout="1d", dim="time"):
@@ -246,7 +260,7 @@ def _free_axis(inp):
     a0, step, n = f(inp["a0"]), f(inp["step"]), inp["n"]
     coords = a0 + step * np.arange(n)
     return coords, _mk(coords, _free_data(inp), step if inp["attr"] else None, inp.get("layout", "1d"),
-                       build=inp.get("build", "time_dim"))
+                       build=inp.get("build", "time_dim"), data_dtype=inp.get("data_dtype"))
 
 
 def _free_result(o, coords):
@@ -381,6 +395,217 @@ def _holds_crop_free(ctx, inp, out):
     return None
 
 
+# ---- library-produced inputs: the array handed to a C17 function is what other library functions returned
+# (create_*_range, *_dim_from_array, set_dim_attrs, ops.resize, and C17's own crop_dim / extend_dim / adjust_dim_width).
+# The produced array is read back (coordinates, cells, `step` attribute): that content is the input of the final
+# call.  Premise monitor: "the step attribute, if present, agrees with the coordinates within the estimation
+# tolerance" (rtol 1e-5, atol 1e-8), evaluated after every producing step.  The expected result continues the
+# lattice of the coordinates - which is the attribute's lattice whenever the attribute is truthful.
+C17_PRODUCERS = ("crop_dim", "extend_dim", "width")
+_P_RTOL, _P_ATOL = Fraction(1, 100000), Fraction(1, 100000000)
+
+
+def _read_axis(arr, dim):
+    """(coordinates as Fractions, step attribute as Fraction | None | 'bad', lattice step | None, regular?)"""
+    import numpy as np
+    cs = [Fraction(float(c)) for c in np.asarray(arr.coords[dim].values)]
+    a = arr.coords[dim].attrs.get("step")
+    try:
+        attr = None if a is None else Fraction(float(a))
+    except (TypeError, ValueError, OverflowError):
+        attr = "bad"
+    lat, regular = None, True
+    if len(cs) >= 2:
+        lat = (cs[-1] - cs[0]) / (len(cs) - 1)
+        tol = _P_ATOL + _P_RTOL * abs(lat)
+        regular = lat > 0 and all(abs((b - a_) - lat) <= tol for a_, b in zip(cs, cs[1:]))
+    return cs, attr, lat, regular
+
+
+def _attr_truthful(attr, lat):
+    if attr == "bad":
+        return False
+    if attr is None or lat is None:
+        return True
+    return abs(attr - lat) <= _P_ATOL + _P_RTOL * abs(lat)
+
+
+def _rel_request(spec, cs, step):
+    """a request given relative to the axis as it is (half-steps beyond the ends, coordinate indices, width
+    difference) -> the request in absolute numbers (exact rationals)"""
+    n = len(cs)
+    fn = spec["fn"]
+    if fn == "extend_dim":
+        req = {"fn": fn, "start": None if spec.get("none_l") else rat(cs[0] - Fraction(spec["kl2"], 2) * step),
+               "stop": None if spec.get("none_r") else rat(cs[-1] + Fraction(spec["kr2"], 2) * step),
+               "lc": spec["lc"], "rc": spec["rc"], "fill": spec["fill"], "eps": None}
+    elif fn == "crop_dim":
+        i = min(spec["i"], n - 1)
+        j = min(max(spec["j"], i), n - 1)
+        st = max(cs[i] - (step / 2 if spec.get("half_l") else 0), cs[0])
+        en = min(cs[j] + (step / 2 if spec.get("half_r") else 0), cs[-1])
+        req = {"fn": fn, "start": rat(st), "stop": rat(en), "lc": spec["lc"], "rc": spec["rc"], "eps": None}
+    else:
+        req = {"fn": "width", "w": max(1, n + spec["dw"]), "fill": spec["fill"], "pos": spec["pos"]}
+    if spec.get("call") is not None:
+        req["call"] = spec["call"]
+    return req
+
+
+def _first_array(p, dim, layout):
+    """the first producer: an array built through the library's constructors (or plainly)"""
+    import numpy as np
+    import xarray as xr
+    from soundevent.arrays import dimensions as dims
+    kind = p["p"]
+    a0, step, n = f(p["a0"]), f(p["step"]), p["n"]
+    k = _ncols(layout)
+    if kind == "range":
+        how = p.get("how", "step")
+        if p["fn"] == "create_range_dim":
+            kw = {"size": n} if how == "size" else {"step": step}
+            var = dims.create_range_dim(dim, a0, a0 + n * step, **kw)
+        elif p["fn"] == "create_frequency_range":
+            var = dims.create_frequency_range(a0, a0 + n * step, step, name=dim)
+        else:
+            kw = {"samplerate": 1 / step} if how == "samplerate" else {"step": step}
+            var = dims.create_time_range(a0, a0 + n * step, name=dim, **kw)
+        m = int(var.shape[0])
+        c = np.asarray(var.values)
+    else:
+        c = a0 + step * np.arange(n)
+        m = n
+        if kind == "from_array":
+            how = p.get("how", "step")
+            kw = {"step": step} if how == "step" else {"estimate_step": True} if how == "estimate" else {"samplerate": 1 / step}
+            if p["fn"] == "frequency" and how == "samplerate":
+                kw = {"step": step}
+            ctor = dims.create_frequency_dim_from_array if p["fn"] == "frequency" else dims.create_time_dim_from_array
+            var = ctor(c, name=dim, **kw)
+        else:
+            var = xr.Variable((dim,), c, attrs={"step": step} if (kind == "plain" and p.get("attr")) else {})
+    data = [[("nan" if (i % 7 == 3 and j == 0) else (i + 1) + 100 * j) for j in range(k)] if k > 1 else ("nan" if i % 7 == 3 else i + 1)
+            for i in range(m)]
+    arr = calls._assemble(calls._matrix(data, layout, False), var, c, dim, layout)
+    if kind == "set_dim_attrs":
+        arr = dims.set_dim_attrs(arr, dim, step=step)
+    return arr
+
+
+def _produce_step(arr, p, dim):
+    """one transforming producer applied to the real object"""
+    if p["p"] == "resize":
+        from soundevent.arrays import operations as ops
+        n = arr.sizes[dim]
+        size = {"double": 2 * n, "quad": 4 * n, "half": max(n // 2, 1), "same": n, "plus3": n + 3, "third": max(n // 3, 1)}[p["size"]]
+        kw = {dim: size}
+        return ops.resize(arr, method=p.get("method", "linear"), **kw) if p.get("method") else ops.resize(arr, **kw)
+    cs, attr, lat, _reg = _read_axis(arr, dim)
+    step = lat if lat is not None else attr
+    return _apply_step(arr, _rel_request(p, cs, step), dim)
+
+
+def _impl_produced(inp):
+    dim, layout = inp.get("dim", "time"), inp.get("layout", "1d")
+    chain = inp["chain"]
+    trail, culprit = [], None
+    try:
+        arr = _first_array(chain[0], dim, layout)
+    except Exception as e:  # noqa: BLE001 - the constructors are not under test here
+        return {"val": {"skip": "producer-raised:" + chain[0]["p"] + ":" + type(e).__name__}}
+    for k, p in enumerate(chain):
+        if k > 0:
+            cs, attr, lat, regular = _read_axis(arr, dim)
+            if not cs or not regular or (lat is None and attr in (None, "bad")):
+                return {"val": {"skip": "outside-quantifier-after:" + "+".join(trail)}}
+            try:
+                arr = _produce_step(arr, p, dim)
+            except Exception as e:  # noqa: BLE001
+                return {"val": {"skip": "producer-raised:" + p.get("fn", p["p"]) + ":" + type(e).__name__}}
+        name = "resize" if p["p"] == "resize" else ("create_%s_dim_from_array" % p["fn"]) if p["p"] == "from_array" else p.get("fn", p["p"])
+        trail.append(name)
+        cs, attr, lat, regular = _read_axis(arr, dim)
+        if culprit is None and not _attr_truthful(attr, lat):
+            culprit = {"step": k, "producer": name, "attr": None if attr in (None, "bad") else rat(attr),
+                       "lattice": None if lat is None else rat(lat)}
+    cs, attr, lat, regular = _read_axis(arr, dim)
+    if not cs or not regular or (lat is None and attr in (None, "bad")):
+        return {"val": {"skip": "outside-quantifier-after:" + "+".join(trail)}}
+    truthful = _attr_truthful(attr, lat)
+    step = attr if (attr not in (None, "bad") and truthful) else lat
+    if step is None or step <= 0:
+        return {"val": {"skip": "no-step-after:" + "+".join(trail)}}
+    produced = _out(arr, layout, dim)
+    if is_err(produced):
+        return {"val": {"skip": "producer-changed-shape:" + "+".join(trail)}}
+    req = _rel_request(inp["call"], cs, step)
+    try:
+        before = _snapshot(arr, dim)
+        r = _apply_step(arr, req, dim)
+        out = {"raise": "crash:input-array-mutated"} if _snapshot(arr, dim) != before else _out(r, layout, dim)
+    except Exception as e:  # noqa: BLE001 - an exception of the real code is the observation
+        out = canon_exc(e)
+    return {"val": {"produced": produced["val"], "step_attr": None if attr in (None, "bad") else rat(attr), "step": rat(step),
+                    "truthful": truthful, "culprit": culprit, "trail": trail, "request": req, "out": out}}
+
+
+def _holds_produced(ctx, inp, io):
+    if is_err(io):
+        return "the driver of the construction path raised %s" % io["raise"]
+    v = io["val"]
+    if "skip" in v:
+        ctx.tally("produced:skipped:" + v["skip"].split(":")[0])
+        return None
+    trail, req, out = v["trail"], v["request"], v["out"]
+    layout = inp.get("layout", "1d")
+    ctx.tally("produced:" + ">".join(trail) + ">" + req["fn"])
+    cul = v["culprit"]
+    if cul is not None:
+        what = (f"after `{cul['producer']}` (step {cul['step']} of {' -> '.join(trail)}) the `step` attribute {cul['attr']} contradicts "
+                f"the coordinates (spacing {cul['lattice']})")
+        if cul["producer"] in C17_PRODUCERS and cul["step"] > 0:
+            return what + ": the function returned an axis that later calls cannot continue on its own lattice"
+        ctx.tally("produced:untruthful-step-attribute-from:" + cul["producer"])
+        note = "construction paths: " + what.split(" (step")[0] + " left a `step` attribute that contradicts the coordinates (not one of C17's functions)"
+        if note not in ctx.notes:
+            ctx.note(note)
+    cs = [frac(c) for c in v["produced"]["coords"]]
+    step = frac(v["step"])
+    data = v["produced"]["data"]
+    nums = [frac(req[k]) for k in ("start", "stop") if req.get(k) is not None] + [step]
+    exact = all(c == cs[0] + i * step for i, c in enumerate(cs)) and all(float(q) == q and q.denominator <= (1 << 30) for q in nums + cs)
+    suffix = "" if v["truthful"] else (f" [the input's step attribute {v['step_attr']} contradicts its coordinates (spacing {v['step']}); "
+                                        f"produced by {' -> '.join(trail)}]")
+    if exact:
+        ctx.tally("produced:judged-exact")
+        full = dict(req, coords=v["produced"]["coords"], data=data, step_attr=v["step"], layout=layout)
+        mo = ctx.model({"crop_dim": "crop_dim", "extend_dim": "extend_dim", "width": "width"}[req["fn"]],
+                       calls.to_model(_SESSION_FN[req["fn"]], dict(full, fn="adjust") if req["fn"] == "width" else
+                                      {k: x for k, x in full.items() if k != "fn" and not (req["fn"] == "crop_dim" and k == "step_attr")}))
+        o = {k: x for k, x in out.items() if k != "trace"}
+        if o != mo:
+            return (f"{req['fn']} on the array produced by {' -> '.join(trail)} disagrees with the model on that array: "
+                    f"impl={jkey(o)[:200]} model={jkey(mo)[:200]}" + suffix)
+        return None
+    # non-dyadic axes: the property evaluated on the real output (length, placement, fill, lattice within tolerance)
+    ctx.tally("produced:judged-free")
+    n = len(cs)
+    base = {"n": n, "layout": layout, "data": data, "a0": rat(cs[0]), "step": v["step"]}
+    fo = None if is_err(out) else {"val": {"coords": fl(out["val"]["coords"]), "data": out["val"]["data"], "orig": [float(c) for c in cs]}}
+    call = inp["call"]
+    if req["fn"] == "width":
+        msg = _holds_width_free(ctx, dict(base, w=req["w"], pos=req["pos"], fill=req["fill"]), fo or out)
+    elif req["fn"] == "extend_dim":
+        msg = _holds_extend_free(ctx, dict(base, fill=req["fill"], kl2=0 if call.get("none_l") else call["kl2"],
+                                           kr2=0 if call.get("none_r") else call["kr2"], lc=True if call.get("none_l") else call["lc"],
+                                           rc=True if call.get("none_r") else call["rc"]), fo or out)
+    else:
+        if fo is not None:
+            fo["val"].update(start=f(req["start"]), stop=f(req["stop"]))
+        msg = _holds_crop_free(ctx, dict(base, lc=req["lc"], rc=req["rc"]), fo or out)
+    return None if msg is None else f"{req['fn']} on the array produced by {' -> '.join(trail)}: {msg}" + suffix
+
+
 _NOOP = dict(model_op="noop", to_model=lambda inp: {}, compare=lambda inp, io, mo: None, mode="tolerance")
 
 
@@ -437,7 +662,8 @@ def _s_snapshot(args):
 
 
 def _same_shape(a, b):
-    return all(a.get(k, d) == b.get(k, d) for k, d in (("layout", "1d"), ("dim", "time"), ("int_axis", False), ("int_data", False))) \
+    return all(a.get(k, d) == b.get(k, d) for k, d in (("layout", "1d"), ("dim", "time"), ("int_axis", False), ("int_data", False),
+                                                    ("data_dtype", None))) \
         and len(a["coords"]) == len(b["coords"]) and not a.get("f32_axis") and not b.get("f32_axis")
 
 
@@ -454,7 +680,7 @@ def _s_modify(args, inp, how):
     dim, layout = inp.get("dim", "time"), inp.get("layout", "1d")
     arr = args["arr"]
     fresh = calls.make_array(fl(inp["coords"]), inp["data"], f(inp.get("step_attr")), layout, inp.get("int_axis", False),
-                             inp.get("int_data", False), dim, "plain")
+                             inp.get("int_data", False), dim, "plain", data_dtype=inp.get("data_dtype"))
     c = np.asarray(fresh.coords[dim].values)
     attrs = {} if inp.get("step_attr") is None else {"step": f(inp["step_attr"])}
     if how == "deep_copy":
@@ -542,6 +768,8 @@ OPS = {
     "width_free": Op("width_free", _impl_width_free, holds=_holds_width_free, **_NOOP),
     "extend_free": Op("extend_free", _impl_extend_free, holds=_holds_extend_free, **_NOOP),
     "crop_free": Op("crop_free", _impl_crop_free, holds=_holds_crop_free, **_NOOP),
+    "produced": Op("produced", _impl_produced, holds=_holds_produced, compare=lambda inp, io, mo: None, no_model=True,
+                   nontrivial=lambda inp, out: not is_err(out) and "out" in out["val"] and not is_err(out["val"]["out"])),
 }
 
 
@@ -923,7 +1151,11 @@ def _axis(rng, n, k=None):
     return a0, step, [a0 + i * step for i in range(n)]
 
 
-FILLS = [0, 0, -9, 77, "nan", "inf", "-inf"]
+# every kind of fill value: integral, fractional (dyadic and not: 1e-3 is the binary64 number), NaN, +-inf
+FRACTIONAL_FILLS = ["1/2", "-9/4", rat(1e-3)]
+FILLS = [0, 0, -9, 77, "nan", "inf", "-inf"] + FRACTIONAL_FILLS
+FILL_KINDS = [0, -9, 77, "nan", "inf", "-inf"] + FRACTIONAL_FILLS
+_fill_fits = calls.fill_fits
 
 
 def _cells(rng, n, k, fill):
@@ -957,9 +1189,16 @@ def _base(rng, coords, step, attr=None, layout=None, fill=0):
          "layout": layout}
     if rng.random() < 0.15:
         b["argty"] = rng.choice(["np", "int"])
-    if rng.random() < 0.1 and all(isinstance(c, int) for row in _norm_data(b["data"], layout) for c in row) \
-            and (fill is None or isinstance(fill, int)):
-        b["int_data"] = True
+    if rng.random() < 0.2 and all(isinstance(c, int) for row in _norm_data(b["data"], layout) for c in row):
+        # integer-typed / single-precision data with *every* kind of fill value (fractional, NaN, +-inf, integral):
+        # the new samples must hold the fill value, whatever type the result needs for that
+        r = rng.random()
+        if r < 0.3:
+            b["int_data"] = True
+        else:
+            dt = rng.choice(["int16", "int32", "int64", "float32"])
+            if _fill_fits(dt, fill):
+                b["data_dtype"] = dt
     return b
 
 
@@ -1094,6 +1333,7 @@ def _extend_cases(ctx, n_axes):
                             b["lc"] = b["rc"] = None
                             b["data"] = _cells(rng, n, _ncols(b["layout"]), 0)
                             b.pop("int_data", None)
+                            b.pop("data_dtype", None)
                         yield b
         # not containing the axis, reversed: extend_dim does not crop
         b = _base(rng, coords, step)
@@ -1216,8 +1456,8 @@ def _history_cases(ctx, count):
             steps.append(st)
             if kmax < kmin or (kmax == kmin and b["step_attr"] is None):
                 break
-        if b.get("int_data") and any(not isinstance(st.get("fill", 0), int) for st in steps):
-            b.pop("int_data")
+        if not all(_fill_fits(b.get("data_dtype"), st.get("fill")) for st in steps):
+            b.pop("data_dtype")
         if len(steps) >= 2:
             b["steps"] = steps
             ctx.tally(f"history:{len(steps)}-calls")
@@ -1282,7 +1522,7 @@ def _range_cases(ctx):
 
 FREE_STEPS = [0.01, 1 / 3, 0.004, 1 / 44100, 0.1, 1e-3, 0.25, 1 / 22050, 0.3, 2.5]
 FREE_STARTS = [0.0, 0.3, 12.7, 2.0, 100.03]
-FREE_FILLS = [0, -9, "nan", "inf"]
+FREE_FILLS = [0, -9, "nan", "inf", "-inf"] + FRACTIONAL_FILLS
 
 
 def _free_cells(rng, n, fill):
@@ -1313,6 +1553,16 @@ def _width_free_cases(ctx):
                "argty": "np" if rng.random() < 0.2 else None, "build": rng.choice(["time_dim", "time_dim"] + calls.BUILDS[1:])}
 
 
+def _free_typed(rng, cases):
+    """the ramp 1..n stored as int16 / int32 / int64 / float32 data in some of the free-mode cases"""
+    for c in cases:
+        if c.get("data") is None and rng.random() < 0.35:
+            dt = rng.choice(["int16", "int32", "int64", "float32"])
+            if _fill_fits(dt, c.get("fill")):
+                c["data_dtype"] = dt
+        yield c
+
+
 def _inside_quantifier(c):
     """an open end must lie strictly beyond the axis end (the requested interval contains the axis)"""
     if not c["lc"] and c["kl2"] == 0:
@@ -1323,7 +1573,7 @@ def _inside_quantifier(c):
 
 
 def _extend_free_cases(ctx):
-    for c in _extend_free_raw(ctx):
+    for c in _free_typed(ctx.rng, _extend_free_raw(ctx)):
         yield _inside_quantifier(c)
 
 
@@ -1495,7 +1745,7 @@ def _product_cases(ctx):
         b["dim"] = calls.DIMS[(rot[0] // 4) % 3]
         return b
 
-    fills = [0, -9, 77, "nan", "inf", "-inf"]
+    fills = FILL_KINDS
     for n in (1, 2, 5, 6):
         a0, step, coords = _axis(rng, n, 2)
         for w in sorted({1, max(n - 1, 1), n, n + 1, n + 2, n + 3, 2 * n, 2 * n + 1}):
@@ -1537,6 +1787,71 @@ def _product_cases(ctx):
     for op, cs in out.items():
         ctx.tally("option-product:" + op, len(cs))
     return out
+
+
+# ------------------------------------------------------------------ data types x fill values
+def _dtype_fill_cases(ctx):
+    """every data type (int16 / int32 / int64 / bool / float32 / float64) x every kind of fill value (integral,
+    fractional, NaN, +-inf) x every function that fills (extend_dim, extend_dim_width, adjust_dim_width at the three
+    positions) and every function that does not (crop_dim, crop_dim_width, adjust_dim_width narrowing / same width).
+    The property pins the cell values - every new sample holds the fill value, every original sample stays on its
+    coordinate - not the data type of the result: values are compared numerically."""
+    rng = ctx.rng
+    out = {"crop_dim": [], "extend_dim": [], "width": [], "history": []}
+    rot = 0
+    for dt in calls.DATA_DTYPES + [None]:
+        for fill in FILL_KINDS:
+            if not _fill_fits(dt, fill):
+                ctx.tally("dtype-fill:not-representable-in-float32")
+                continue
+            rot += 1
+            n = (3, 4, 5)[rot % 3]
+            a0, step, coords = _axis(rng, n, rot % 3)
+            layout, dim = LAYOUTS[rot % 4], calls.DIMS[(rot // 4) % 3]
+            k = _ncols(layout)
+            if dt == "bool":
+                data = [[(i + j) % 2 for j in range(k)] if k > 1 else i % 2 for i in range(n)]
+            else:
+                data = [[(i + 1) + 100 * j for j in range(k)] if k > 1 else i + 1 for i in range(n)]
+            b = {"coords": rats(coords), "data": data, "layout": layout, "dim": dim}
+            if dt is not None:
+                b["data_dtype"] = dt
+            ctx.tally(f"dtype-fill:{dt or 'float64'}")
+            half = Fraction(1, 2)
+            for attr, (s, e, lc, rc) in zip((True, False, True), [(coords[0] - (2 + half) * step, coords[-1] + (1 + half) * step, True, False),
+                                                                  (None, coords[-1] + 2 * step, True, True),
+                                                                  (coords[0] - step, None, True, False)]):
+                out["extend_dim"].append(dict(b, step_attr=rat(step) if attr else None, start=None if s is None else rat(s),
+                                              stop=None if e is None else rat(e), lc=lc, rc=rc, eps=None, fill=fill,
+                                              call=rng.choice([None, None, 3, 6])))
+            for pos in ("start", "center", "end"):
+                out["width"].append(dict(b, step_attr=rat(step), fn="extend", w=n + 3, fill=fill, pos=pos))
+                out["width"].append(dict(b, step_attr=None, fn="adjust", w=n + 2, fill=fill, pos=pos, call=rng.choice([None, 2, 3])))
+            out["width"].append(dict(b, step_attr=rat(step), fn="adjust", w=n, fill=fill, pos="center"))
+            out["width"].append(dict(b, step_attr=rat(step), fn="adjust", w=n - 1, fill=fill, pos="end"))
+            out["width"].append(dict(b, step_attr=None, fn="crop", w=n - 1, fill=None, pos="center"))
+            out["crop_dim"].append(dict(b, step_attr=None, start=rat(coords[1]), stop=rat(coords[-1]), lc=True, rc=rot % 2 == 0, eps=None))
+            # a chain: the first call may change the data type of the array, the second fills again
+            other = FILL_KINDS[(rot * 5) % len(FILL_KINDS)]
+            if _fill_fits(dt, other):
+                out["history"].append(dict(b, step_attr=rat(step), steps=[
+                    {"fn": "extend_dim", "start": rat(coords[0] - step), "stop": rat(coords[-1] + step * half), "lc": True, "rc": False,
+                     "fill": fill, "eps": None},
+                    {"fn": "width", "w": n + 4, "fill": other, "pos": ("start", "center", "end")[rot % 3]},
+                    {"fn": "crop_dim", "start": rat(coords[0] - step), "stop": rat(coords[-1] + 2 * step), "lc": True, "rc": True, "eps": None}]))
+    for op, cs in out.items():
+        ctx.tally("dtype-fill:" + op, len(cs))
+    return out
+
+
+def _stage_dtype_fill(ctx):
+    groups = _dtype_fill_cases(ctx)
+    _run_by_op(ctx, groups)
+    ctx.run_cases(OPS["history"], groups["history"])
+    ctx.exhaustive["dtype-fill"] = (f"data types {calls.DATA_DTYPES + ['float64']} x fill values {FILL_KINDS} (float32 data only with fill "
+                                    "values float32 can hold) x extend_dim (3 requests), extend_dim_width / adjust_dim_width widening x "
+                                    "start / center / end, adjust_dim_width same width / narrowing, crop_dim_width, crop_dim, and one "
+                                    "3-call chain extend_dim -> adjust_dim_width -> crop_dim")
 
 
 # ------------------------------------------------------------------ boundaries and sizes (HISTORIES.md section 4)
@@ -1665,7 +1980,8 @@ def _session_variants(x, rng):
     fname = _SESSION_FN[fn]
     v(call=rng.choice(list(range(calls.n_optional(fname) + 1))) if x.get("call") is None else None)
     v(dim=rng.choice([dn for dn in calls.DIMS if dn != x.get("dim", "time")]))
-    return [y for y in out if not (y["fn"] != "crop_dim" and len(y["coords"]) < 2 and y.get("step_attr") is None)]
+    return [y for y in out if not (y["fn"] != "crop_dim" and len(y["coords"]) < 2 and y.get("step_attr") is None)
+            and _fill_fits(y.get("data_dtype"), y.get("fill"))]
 
 
 def _session_cases(ctx, count):
@@ -1739,6 +2055,97 @@ def _width_sweep_cases(ctx):
                 for pos in ("start", "center", "end"):
                     yield {"a0": rat(a0), "step": rat(step), "n": n, "attr": w % 2 == 0, "w": w, "pos": pos,
                            "fill": rng.choice(FREE_FILLS), "layout": "1d", "data": None}
+
+
+# ------------------------------------------------------------------ library-produced inputs (construction paths through the library)
+_FIRSTS = [{"p": "plain", "attr": True}, {"p": "plain", "attr": False},
+           {"p": "range", "fn": "create_time_range", "how": "step"}, {"p": "range", "fn": "create_time_range", "how": "samplerate"},
+           {"p": "range", "fn": "create_frequency_range"}, {"p": "range", "fn": "create_range_dim", "how": "step"},
+           {"p": "range", "fn": "create_range_dim", "how": "size"},
+           {"p": "from_array", "fn": "time", "how": "step"}, {"p": "from_array", "fn": "time", "how": "samplerate"},
+           {"p": "from_array", "fn": "time", "how": "estimate"}, {"p": "from_array", "fn": "frequency", "how": "step"},
+           {"p": "from_array", "fn": "frequency", "how": "estimate"}, {"p": "set_dim_attrs"}]
+_RESIZES = ["double", "half", "quad", "same", "plus3", "third"]
+
+
+def _rel_call(rng, kind, fill=None):
+    fill = rng.choice(FILL_KINDS) if fill is None else fill
+    lc, rc = rng.choice(_FLAGS)
+    if kind == "extend_dim":
+        c = _inside_quantifier({"fn": kind, "kl2": rng.choice([0, 1, 2, 3, 4, 7]), "kr2": rng.choice([0, 1, 2, 3, 5, 6]), "lc": lc, "rc": rc, "fill": fill})
+        r = rng.random()
+        if r < 0.1:
+            c["none_l"] = True
+        elif r < 0.2:
+            c["none_r"] = True
+        return c
+    if kind == "crop_dim":
+        i = rng.randrange(0, 6)
+        return {"fn": kind, "i": i, "j": i + rng.randrange(0, 8), "half_l": rng.random() < 0.5, "half_r": rng.random() < 0.5, "lc": lc, "rc": rc}
+    return {"fn": "width", "dw": rng.choice([-2, -1, 0, 1, 2, 3, 5]), "pos": rng.choice(["start", "center", "end"]), "fill": fill}
+
+
+def _produced_cases(ctx, count):
+    """first producer (a constructor of the library, or a plain array) -> 0-2 transforming producers (ops.resize,
+    crop_dim, extend_dim, adjust_dim_width) -> the C17 call under test, on dyadic axes (judged exactly by the model)
+    and on decimal ones (judged by the property on the real output)"""
+    rng = ctx.rng
+
+    def first(tpl, decimal=False):
+        n = rng.choice([2, 3, 4, 6, 8, 10])
+        if decimal:
+            a0, step = rng.choice([0.0, 0.3, 1.0]), rng.choice([0.1, 0.01, 1 / 3, 0.05])
+            p = dict(tpl, a0=rat(a0), step=rat(step), n=n)
+        else:
+            k = rng.choice([0, 1, 2, 3])
+            a0, step, _ = _axis(rng, n, k)
+            if tpl.get("how") == "samplerate":
+                step = Fraction(1, 1 << k)      # 1 / samplerate must be the very step
+            p = dict(tpl, a0=rat(a0), step=rat(step), n=n)
+        return p
+
+    def case(chain, call, layout=None, dim=None):
+        c = {"chain": chain, "call": call, "layout": layout or rng.choice(["1d", "1d", "2d-first", "2d-last"]),
+             "dim": dim or rng.choice(calls.DIMS)}
+        if rng.random() < 0.15:
+            call["call"] = rng.randint(0, calls.n_optional(_SESSION_FN[call["fn"]]))
+        return c
+
+    # systematic: every first producer x (nothing | every resize) x every function under test
+    for tpl in _FIRSTS:
+        for mid in [None] + _RESIZES:
+            for kind in ("extend_dim", "width", "width", "crop_dim"):
+                chain = [first(tpl)] + ([{"p": "resize", "size": mid}] if mid else [])
+                call = _rel_call(rng, kind)
+                if kind == "width" and call["dw"] <= 0 and rng.random() < 0.7:
+                    call["dw"] = rng.choice([1, 2, 4])
+                yield case(chain, call)
+    # the seeded shapes of wave 5 with decimal steps: create_time_range(0, 1, 0.1) -> resize -> widen
+    for tpl in _FIRSTS:
+        for mid in ("double", "half", "plus3"):
+            for kind in ("extend_dim", "width"):
+                yield case([first(tpl, decimal=True), {"p": "resize", "size": mid}], _rel_call(rng, kind, fill=rng.choice([0, -7, "nan", "1/2"])), layout="1d")
+    for _ in range(count):
+        chain = [first(rng.choice(_FIRSTS), decimal=rng.random() < 0.2)]
+        for _k in range(rng.choice([0, 1, 1, 2])):
+            r = rng.random()
+            if r < 0.4:
+                t = {"p": "resize", "size": rng.choice(_RESIZES)}
+                if rng.random() < 0.2:
+                    t["method"] = rng.choice(["linear", "nearest"])
+                chain.append(t)
+            else:
+                chain.append(dict(_rel_call(rng, rng.choice(["extend_dim", "extend_dim", "crop_dim", "width"])), p="c17"))
+        yield case(chain, _rel_call(rng, rng.choice(["extend_dim", "extend_dim", "width", "width", "crop_dim"])))
+
+
+def _stage_produced(ctx):
+    ctx.run_cases(OPS["produced"], _produced_cases(ctx, ctx.budget(500, 5000)))
+    ctx.exhaustive["library-produced"] = ("first producer (plain with / without step attribute, create_time_range by step / samplerate, "
+                                          "create_frequency_range, create_range_dim by step / size, create_time_dim_from_array by step / "
+                                          "samplerate / estimate, create_frequency_dim_from_array by step / estimate, set_dim_attrs) x "
+                                          f"(no transformer | ops.resize to {_RESIZES}) x extend_dim / adjust_dim_width / crop_dim; the "
+                                          "same with decimal steps (0.1, 0.01, 1/3, 0.05) x resize double / half / plus3 x widening")
 
 
 QUICK_LENGTHS = [1, 2, 3, 4, 5, 7, 8, 12, 16, 25, 40]
@@ -1835,12 +2242,14 @@ def run(ctx):
     ctx.stage("extend-exact", lambda: ctx.run_cases(OPS["extend_dim"], _styled(ctx, "extend_dim", _extend_cases(ctx, ctx.budget(25, 200)))))
     ctx.stage("paths-exact", _stage_paths, ctx)
     ctx.stage("products-exact", _stage_products, ctx)
+    ctx.stage("dtype-fill-exact", _stage_dtype_fill, ctx)
     ctx.stage("boundaries-exact", _stage_boundaries, ctx)
     ctx.stage("history-exact", lambda: ctx.run_cases(OPS["history"], _history_cases(ctx, ctx.budget(700, 6000))))
     ctx.stage("sessions-exact", _stage_sessions, ctx)
+    ctx.stage("library-produced", _stage_produced, ctx)
     ctx.stage("step-exact", lambda: ctx.run_cases(OPS["dim_step"], _step_cases(ctx)))
     ctx.stage("range-exact", lambda: ctx.run_cases(OPS["dim_range"], _range_cases(ctx)))
-    ctx.stage("width-free-monitor", lambda: ctx.run_cases(OPS["width_free"], _width_free_cases(ctx)))
+    ctx.stage("width-free-monitor", lambda: ctx.run_cases(OPS["width_free"], _free_typed(ctx.rng, _width_free_cases(ctx))))
     ctx.stage("extend-free-monitor", lambda: ctx.run_cases(OPS["extend_free"], _extend_free_cases(ctx)))
     ctx.stage("crop-free-monitor", lambda: ctx.run_cases(OPS["crop_free"], _crop_free_cases(ctx)))
     ctx.stage("lattice-sweeps", _stage_sweeps, ctx)
@@ -1854,10 +2263,12 @@ def search(ctx, failures):
     ctx.run_cases(OPS["extend_dim"], _styled(ctx, "extend_dim", _extend_cases(ctx, 40)))
     _stage_paths(ctx)
     _stage_products(ctx)
+    _stage_dtype_fill(ctx)
     ctx.run_cases(OPS["history"], _history_cases(ctx, 700))
     _stage_sessions(ctx)
+    _stage_produced(ctx)
     ctx.run_cases(OPS["dim_step"], _step_cases(ctx))
-    ctx.run_cases(OPS["width_free"], _width_free_cases(ctx))
+    ctx.run_cases(OPS["width_free"], _free_typed(ctx.rng, _width_free_cases(ctx)))
     ctx.run_cases(OPS["extend_free"], _extend_free_cases(ctx))
     ctx.run_cases(OPS["crop_free"], _crop_free_cases(ctx))
     _stage_sweeps(ctx)
